@@ -91,8 +91,11 @@ def h_recover(params, k, w, r0, r1, r2, r3, r4, r5, via_json, cont):
   w = _pick([0, 1, 2], w)
   if w > k:
     raise Assume()
-  rewards = [_pick([0, 1, 2], r) for r in (r0, r1, r2, r3, r4, r5)]
-  cont = _pick([0, 1, 2, 3], cont)
+  # lazily: only the rewards that are actually fed back (the first k - w proposals) are solver decisions
+  sym_rewards = (r0, r1, r2, r3, r4, r5)
+  rewards = [_pick([0, 1, 2], sym_rewards[t]) if t < k - w else 0 for t in range(6)]
+  via_json = bool(via_json)
+  cont = _pick([0, 1, 2, 3], cont) if name in DETERMINISTIC else 0
   with untraced():
     spec = pg.dna_spec(_space(sp))
     # the uninterrupted run: k proposals, feedback for the first k - w of them
